@@ -196,5 +196,65 @@ def rebuilt_check(prog, fn):
     return None
 
 
+def rn4(prog):
+    """RN4  the top-down builder never interns a node whose two children are identical: a decision node is
+    built only on the false edge of low == high, a literal node has the constants (⊥, ⊤), and an implied
+    literal node(l, ⊥, rest) / node(l, rest, ⊥) is built only for a rest that is known not to be ⊥ — this is
+    what makes "the false constant is returned exactly for unsatisfiable input" hold structurally."""
+    from .fs import const_kind
+    out = []
+    DN = "builder::decision_nnf::builder::DecisionNNFBuilder"
+    fns = [f for f in prog.lib_fns if (f.in_trait == DN or (f.impl_trait == "builder::TopDownBuilder"))
+           and any(b["term"]["k"] == "call" for b in f.blocks)]
+    n = 0
+    for fn in fns:
+        te = fn.terms
+
+        def nonfalse(t, bb, depth=0):
+            t = strip(t)
+            if depth > 6:
+                return False
+            if mir.is_call(t, "get_or_insert"):
+                return True
+            if const_kind(t) == "true":
+                return True
+            if has_fact(te, bb, lambda c: mir.is_call(c, "is_false") and strip(c[2][-1]) == t, False):
+                return True
+            if t[0] == "mu":
+                key = (t[1], t[2])
+                init = te.mu_init.get(key)
+                ups = te.mu_update.get(key, [])
+                return init is not None and nonfalse(init, t[1], depth + 1) and all(
+                    nonfalse(u, bb, depth + 1) or strip(u) == t for u in ups)
+            return False
+        for cs in te.calls:
+            if not (cs.callee.name == "new" and "BddNode" in cs.callee.key()):
+                continue
+            lo, hi = cs.args[1], cs.args[2]
+            n += 1
+            kl, kh = const_kind(lo), const_kind(hi)
+            ok = False
+            why = ""
+            if has_fact(te, cs.bb, eq_of(lo, hi), False):
+                ok, why = True, "built on the false edge of low == high"
+            elif kl and kh and kl != kh:
+                ok, why = True, "constant children (%s, %s)" % (kl, kh)
+            elif kl == "false" and nonfalse(hi, cs.bb):
+                ok, why = True, "node(l, ⊥, rest) with rest known not to be ⊥"
+            elif kh == "false" and nonfalse(lo, cs.bb):
+                ok, why = True, "node(l, rest, ⊥) with rest known not to be ⊥"
+            key = "%s:RN4:new" % fn.npath
+            seen = sum(1 for r in out if r["key"].startswith("RN:" + key))
+            if seen:
+                key += "#%d" % (seen + 1)
+            out.append(inst("RN", key, OK if ok else VIOLATION, fn, cs.line, why if ok else
+                            "node(%s, %s) may be interned with two identical children: nothing on the path excludes that the "
+                            "non-constant child is ⊥ (an unsatisfiable sub-result then becomes a non-constant node denoting "
+                            "false instead of the false constant)" % (show(lo)[:40], show(hi)[:40])))
+    if n < 6:
+        raise CheckerError("RN4: expected >= 6 node constructions in the top-down builder, found %d" % n)
+    return out
+
+
 def run(prog):
-    return rn1(prog) + rn2(prog) + rn3(prog)
+    return rn1(prog) + rn2(prog) + rn3(prog) + rn4(prog)
